@@ -457,7 +457,19 @@ class DFXPWriter(BaseWriter):
 
         for node in caption.nodes:
             if node.type_ == CaptionNode.TEXT:
-                line += self._encode(node.content)
+                text = self._encode(node.content)
+                if node.layout_info and not self.open_span:
+                    # a text node outside any span that is positioned
+                    # differently from its caption needs a span of its own
+                    # to carry the region
+                    region_id, _ = self.region_creator.get_positioning_info(
+                        lang, caption_set, caption, node)
+                    caption_region_id, _ = (
+                        self.region_creator.get_positioning_info(
+                            lang, caption_set, caption))
+                    if region_id != caption_region_id:
+                        text = f'<span region="{region_id}">{text}</span>'
+                line += text
 
             elif node.type_ == CaptionNode.BREAK:
                 line = line.rstrip() + '<br/>\n    '
